@@ -11,7 +11,10 @@ echo "== suite with change: $(cargo nextest run --workspace --no-fail-fast --off
 TIER=quick
 for id in "$@"; do
   if [ "$id" = "--thorough" ]; then TIER=thorough; continue; fi
+  # the evidence file belongs to the unchanged tree: keep it out of the seeded run's way
+  cp /verif/evidence/$id.json /tmp/.evidence-$id.json.keep 2>/dev/null
   out=$(cd /verif && ./check "$id" --tier $TIER 2>&1); rc=$?
+  mv /tmp/.evidence-$id.json.keep /verif/evidence/$id.json 2>/dev/null
   nv=$(echo "$out" | grep -c '^VIOLATION')
   echo "== $id [$TIER] exit=$rc violation_lines=$nv :: $(echo "$out" | grep -E "^$id tier" | tail -1 | sed 's/.*known_hits/known_hits/')"
   echo "$out" | grep -A1 '^VIOLATION' | grep 'kind=' | sort | uniq -c | sort -rn | head -4
